@@ -12,19 +12,19 @@ META = {
     "C02": {
         "engine": _E1, "design_ref": "DESIGN.md §4 C02",
         "technique": "stateful property-based testing with a generated schedule; liveness decided as a state predicate at synctest quiescence (blocked-while-grantable), writer-preference barrier, post-cancel probes",
-        "text": "Same machine as C01 biased to waiters and cancellations. At every full-quiescence point a blocked Lock must be non-grantable under the lock's own rules, a cancelled Lock must have returned, TryLock probes must equal the model without cancelled calls, and a reader issued behind a waiting writer must not be granted before the writer acquired or gave up. A free-running unit (TestC02Free) keeps the RWMutex's internal mutex contended while a single writer's Lock calls are cancelled, and requires a read TryLock issued right after such a call returned to succeed.",
+        "text": "Same machine as C01 biased to waiters and cancellations. At every full-quiescence point a blocked Lock must be non-grantable under the lock's own rules, a cancelled Lock must have returned, TryLock probes must equal the model without cancelled calls, and a reader issued behind a waiting writer must not be granted before the writer acquired or gave up. A free-running unit (TestC02Free) keeps the RWMutex's internal mutex contended while a single writer's Lock calls are cancelled, and requires a read TryLock issued right after such a call returned to succeed. Controlled histories include a barging prefix (a waiter is woken while a newcomer takes and returns the lock) and the priority / uniform schedule modes.",
         "note": "Quiescence is exact inside the synctest bubble (all goroutines durably blocked), so no wall-clock grace period is used. Bounded histories.",
     },
     "C19": {
         "engine": "E4 input PBT (rapid) + native go fuzzing in the thorough tier", "design_ref": "DESIGN.md §4 C19",
         "technique": "property-based testing of round-trip / differential (naive reference) / metamorphic (read chunking) relations with boundary-biased generators; coverage-guided native fuzzing with the same oracles",
-        "text": "PadInPlace/UnpadInPlace round trip and no-panic on arbitrary input, Prefix/TrimPrefix against a naive byte-wise longest-common-prefix, prng streams compared across chunkings and against the source's little-endian words. Lengths biased to 0, 32k±3 and spare capacity; alphabets include NUL, >=0x80 and invalid UTF-8.",
+        "text": "PadInPlace/UnpadInPlace round trip and no-panic on arbitrary input, Prefix/TrimPrefix against a naive byte-wise longest-common-prefix, prng streams compared across chunkings and against the source's little-endian words. Lengths biased to 0, 32k±3 and spare capacity; alphabets include NUL, >=0x80 and invalid UTF-8. TestC19PrngPar builds sources concurrently from the same seeds and compares them with sequentially built ones.",
         "note": "Inputs up to 4 KiB (rapid) / fuzz-engine sized; the oracles assert exactly what the property states (no minimal-length or zero-fill requirement).",
     },
     "C20": {
         "engine": "E4 model-based PBT (rapid) over operation sequences; ioproxy inside a synctest bubble", "design_ref": "DESIGN.md §4 C20",
         "technique": "model-based property testing: generated call sequences with scripted short reads/errors compared step by step with reference models (section reader, byte counter, close-once state machine, map + notification replay); ioproxy traffic checked at synctest quiescence",
-        "text": "Every call's return values are compared with an explicit reference model after every step; the wrapped streams are scripted (short counts, EOF, errors) and log each call so that 'not touched after Close' and 'read issued at the model position' are observable. unique: contents equal the model and the notification log replayed on the previous contents reproduces the new contents.",
+        "text": "Every call's return values are compared with an explicit reference model after every step; the wrapped streams are scripted (short counts, EOF, errors) and log each call so that 'not touched after Close' and 'read issued at the model position' are observable. unique: contents equal the model and the notification log replayed on the previous contents reproduces the new contents. Initial contents may be nil.",
         "note": "ReaderAtSeeker is built with the true size (documented precondition). Scripted streams respect the io.Reader/Writer contract (0 <= n <= len(p)). Removal notifications are only required to name the key.",
     },
     "C03": {
@@ -36,31 +36,31 @@ META = {
     "C15": {
         "engine": _E1, "design_ref": "DESIGN.md §4 C15",
         "technique": "model-based stateful PBT with generated schedule; sequential cell model advanced in critical-section grant order; waiter results checked against the value sampled in their last critical section; blocked-while-satisfied at quiescence",
-        "text": "Writers (SetValue, SwapValue inc/const/nil), readers and all four waiter kinds with contexts and error channels over plain and custom equality; the model is advanced in the exact order the controller grants the critical sections, so every GetValue/SwapValue result and every waiter return is compared with the linearised cell history. TestC15Free checks lost updates / interleaved callbacks with real parallelism. TestC15Free additionally stamps SetValue writes (writer, sequence) on a second cell whose lock is kept busy: a goroutine never reads one of its own older stamps after its SetValue returned and one writer's stamps never go backwards for one reader.",
+        "text": "Writers (SetValue, SwapValue inc/const/nil), readers and all four waiter kinds with contexts and error channels over plain and custom equality; the model is advanced in the exact order the controller grants the critical sections, so every GetValue/SwapValue result and every waiter return is compared with the linearised cell history. TestC15Free checks lost updates / interleaved callbacks with real parallelism. TestC15Free additionally stamps SetValue writes (writer, sequence) on a second cell whose lock is kept busy: a goroutine never reads one of its own older stamps after its SetValue returned and one writer's stamps never go backwards for one reader. A comparator that never calls a zero operand equal; TestC15Free also checks a cell of 16-word values for torn reads.",
         "note": "One critical section per mutator call (true for the anchored code). Values 0..8, equality mod 4.",
     },
     "C11": {
         "engine": _E1, "design_ref": "DESIGN.md §4 C11",
         "technique": "stateful PBT with generated schedule over Promise and PromiseContainer; unique result values make every returned result attributable; spin detection by a grant budget; blocked-despite-result at synctest quiescence",
-        "text": "Setters (incl. context sentinel errors as results), three awaiter kinds with contexts and channels, container replacement ops. Exactly one SetResult may return true, every value returned must be the winner's, a container awaiter may only return the result of a promise that was current after the awaiter's last quiescent block, blocked awaiters at quiescence must have no result, live context and silent channel. TestC11Free races setters and awaiters on several promises with real parallelism (exactly one winner, everybody sees it). An awaiter that keeps taking critical sections without blocking (grant budget exceeded) is reported as a spin. TestC11Free also drives a PromiseContainer with stamped promises: after its own SetPromise returned a goroutine never obtains one of its own older stamps, and one writer's stamps never go backwards for one reader.",
+        "text": "Setters (incl. context sentinel errors as results), three awaiter kinds with contexts and channels, container replacement ops. Exactly one SetResult may return true, every value returned must be the winner's, a container awaiter may only return the result of a promise that was current after the awaiter's last quiescent block, blocked awaiters at quiescence must have no result, live context and silent channel. TestC11Free races setters and awaiters on several promises with real parallelism (exactly one winner, everybody sees it). An awaiter that keeps taking critical sections without blocking (grant budget exceeded) is reported as a spin. TestC11Free also drives a PromiseContainer with stamped promises: after its own SetPromise returned a goroutine never obtains one of its own older stamps, and one writer's stamps never go backwards for one reader. User promises may be constructed with their result (NewPromiseWithResult): every later SetResult must lose.",
         "note": "Open findings D16a/D16b (container AwaitWithErrCh/AwaitWithCancelCh ignore their channel while an unresolved promise is current) are excluded by construction and reported as KNOWN-FINDING; nil errors on error channels are not generated.",
     },
     "C16": {
         "engine": _E1, "design_ref": "DESIGN.md §4 C16",
         "technique": "stateful PBT with generated schedule; scripted function invocations (blocked until a generated Finish), call counting, stale-error and blocked-without-invocation oracles at quiescence",
-        "text": "Callers are parked before the Once mutex and the wrapped function blocks until the generator finishes it with a value, an error or the initiator's context error, so arrival order relative to completion is a generated quantity. Checked: never two invocations at once, none after success, every value equals the success value, Canceled only for cancelled callers, errors come from an invocation, no caller re-uses an error that another caller had already received before it was issued, live callers are blocked only while an invocation is in flight. MemoizeFunc: exactly one invocation, everyone gets its result. Outcomes include a wrapped cancellation error of the initiating caller; TestC16Free repeats the call-count oracles with real parallelism on several objects.",
+        "text": "Callers are parked before the Once mutex and the wrapped function blocks until the generator finishes it with a value, an error or the initiator's context error, so arrival order relative to completion is a generated quantity. Checked: never two invocations at once, none after success, every value equals the success value, Canceled only for cancelled callers, errors come from an invocation, no caller re-uses an error that another caller had already received before it was issued, live callers are blocked only while an invocation is in flight. MemoizeFunc: exactly one invocation, everyone gets its result. Outcomes include a wrapped cancellation error of the initiating caller; TestC16Free repeats the call-count oracles with real parallelism on several objects. A caller whose context was cancelled before Resolve must get context.Canceled.",
         "note": "A function returning context.Canceled while all contexts are live is not generated (property leaves it open).",
     },
     "C17": {
         "engine": _E1, "design_ref": "DESIGN.md §4 C17",
         "technique": "PBT over argument lists and scripted outcomes with a generated schedule that can delay the caller right after each of its critical sections",
-        "text": "0..8 functions incl. nil entries with scripted outcomes and a generated caller-cancel point; the functions park at entry so completion order is generated. Result checked against the multiset of outcomes observed at return, per-function invocation counts, context cancelled after return, no panic for any argument list. One third of the caller cancellations happen through a context whose Err() is DeadlineExceeded (the result must still be context.Canceled).",
+        "text": "0..8 functions incl. nil entries with scripted outcomes and a generated caller-cancel point; the functions park at entry so completion order is generated. Result checked against the multiset of outcomes observed at return, per-function invocation counts, context cancelled after return, no panic for any argument list. One third of the caller cancellations happen through a context whose Err() is DeadlineExceeded (the result must still be context.Canceled). Functions returning errors that wrap context.Canceled; the argument slice must be untouched and a second call with it runs every function exactly once again.",
         "note": "Functions that block do so on their context only.",
     },
     "C18": {
         "engine": _E1, "design_ref": "DESIGN.md §4 C18",
         "technique": "model-based stateful PBT with generated schedule; (queued,running) model advanced in critical-section order, ground-truth counters inside the jobs, probes at quiescence",
-        "text": "Jobs block until the generator finishes them. Checked at every job start: active <= limit and single execution; at quiescence: Enqueue() equals both the model and the harness ground truth, no job waits while a slot is free, observers are not blocked while idle; WaitIdle nil implies all earlier jobs finished; limit 1 start order equals enqueue (critical-section) order; every reported pair satisfies queued>0 => running==limit. Observers get nil / non-nil errors on their error channel; TestC18Free checks limit, exactly-once and WaitIdle with real parallelism. Batches may contain nil funcs (tolerated by the queue; modelled with a FIFO backlog); TestC18Free runs pollers calling the zero-argument Enqueue() throughout, half of the cases beside a goroutine forcing preemption, and checks every returned pair.",
+        "text": "Jobs block until the generator finishes them. Checked at every job start: active <= limit and single execution; at quiescence: Enqueue() equals both the model and the harness ground truth, no job waits while a slot is free, observers are not blocked while idle; WaitIdle nil implies all earlier jobs finished; limit 1 start order equals enqueue (critical-section) order; every reported pair satisfies queued>0 => running==limit. Observers get nil / non-nil errors on their error channel; TestC18Free checks limit, exactly-once and WaitIdle with real parallelism. Batches may contain nil funcs (tolerated by the queue; modelled with a FIFO backlog); TestC18Free runs pollers calling the zero-argument Enqueue() throughout, half of the cases beside a goroutine forcing preemption, and checks every returned pair. TestC18Free constructs the queue with 0/500/1000 short initial jobs and checks that the counters settle at (0,0) once all jobs ran.",
         "note": "Bounded: <= 60 ops, batches <= 4.",
     },
     "C04": {
@@ -72,31 +72,31 @@ META = {
     "C05": {
         "engine": _E1, "design_ref": "DESIGN.md §4 C05",
         "technique": "model-based stateful PBT with concurrent mutators; reference machine (Appendix A.2) advanced in critical-section grant order; cancellation checked when each mutator returns; survivor checked at quiescence",
-        "text": "Concurrent mutator goroutines; the oracles use only the instances that were executing when a call's critical section was granted and the last granted context/state (no dependence on restart rules). TestC05Free repeats the superseded-implies-cancelled-on-return check with real lock contention; when a mutator returns, every instance it superseded (context replaced or cleared, routine/state replaced, restart) must have a cancelled context; at full quiescence at most one instance has a live context, only if a context, a routine and a non-empty state are set, and it carries the container's current context id and the most recently stored (unique) state. Histories also contain the owner cancelling the root context directly and WaitExited calls (some with an already cancelled waiter context) between the mutators.",
+        "text": "Concurrent mutator goroutines; the oracles use only the instances that were executing when a call's critical section was granted and the last granted context/state (no dependence on restart rules). TestC05Free repeats the superseded-implies-cancelled-on-return check with real lock contention; when a mutator returns, every instance it superseded (context replaced or cleared, routine/state replaced, restart) must have a cancelled context; at full quiescence at most one instance has a live context, only if a context, a routine and a non-empty state are set, and it carries the container's current context id and the most recently stored (unique) state. Histories also contain the owner cancelling the root context directly and WaitExited calls (some with an already cancelled waiter context) between the mutators. Optional coarse equality function for the state container (with equivalent-but-different states) and root contexts of a caller-defined Context type; TestC05Free also cancels the root context right before the superseding call.",
         "note": "The container's root context is never cancelled from outside (only replaced), see DESIGN Appendix A.2.",
     },
     "C14": {
         "engine": "E2 sequential histories in virtual time", "design_ref": "DESIGN.md §4 C14",
         "technique": "model-based PBT against the documented state machine in virtual time: scripted outcomes, scripted back-off, exact run/return-value/back-off-log/exit-callback/WaitExited comparison after every settled step",
-        "text": "Runs, exits and waits are compared with the machine (mutator return values are only counted); the managed function is entered exactly by the instances the machine starts (success never re-run except by RestartRoutine/new routine; failure re-run by RestartRoutine, SetContext(restart) or the back-off timer at exactly t+b); NextBackOff/Reset call counts equal the machine's; current exits are reported exactly once to each exit callback; WaitExited returns exactly what was returnable at its last look and is never blocked at quiescence while returnable. TestC14Backoff drives the library's own back-off configuration (routine.WithRetry, exponential/constant, defaults) in virtual time with instances that run up to 40 minutes before failing. One third of the cases leave timer callbacks and exits parked across calls; the callback of a retry timer that was stopped after it had fired must have no effect. TestC14Backoff checks the exact configured schedule (initial*multiplier^k capped at max) and optionally runs a second, failing container built from the same Option value.",
+        "text": "Runs, exits and waits are compared with the machine (mutator return values are only counted); the managed function is entered exactly by the instances the machine starts (success never re-run except by RestartRoutine/new routine; failure re-run by RestartRoutine, SetContext(restart) or the back-off timer at exactly t+b); NextBackOff/Reset call counts equal the machine's; current exits are reported exactly once to each exit callback; WaitExited returns exactly what was returnable at its last look and is never blocked at quiescence while returnable. TestC14Backoff drives the library's own back-off configuration (routine.WithRetry, exponential/constant, defaults) in virtual time with instances that run up to 40 minutes before failing. One third of the cases leave timer callbacks and exits parked across calls; the callback of a retry timer that was stopped after it had fired must have no effect. TestC14Backoff checks the exact configured schedule (initial*multiplier^k capped at max) and optionally runs a second, failing container built from the same Option value. Zero back-off intervals; option lists ending in WithRetry(nil)/WithBackoff(nil) (retrying disabled again).",
         "note": "A pending retry dropped by SetContext(other,false)/ClearContext follows the code (not asserted either way); exits of instances superseded by SetRoutine may be reported to callbacks (0 or 1 times).",
     },
     "C06": {
         "engine": "E2 sequential histories in virtual time", "design_ref": "DESIGN.md §4 C06",
         "technique": "model-based stateful PBT in virtual time: key-set reference model with exact removal deadlines; every return value and a full read-back compared after every step",
-        "text": "Keyed and KeyedRefCount machines over 1..6 keys with and without release delay; AdvanceTime offsets straddle the delay (99/100/101 ms). After every operation and time advance GetKeys, GetKey for the whole universe and GetKeysWithData equal the model, as do existed/added/removed/data return values and the number of constructor calls. The callback of a removal timer that was stopped after it had fired (key requested again) must have no effect.",
+        "text": "Keyed and KeyedRefCount machines over 1..6 keys with and without release delay; AdvanceTime offsets straddle the delay (99/100/101 ms). After every operation and time advance GetKeys, GetKey for the whole universe and GetKeysWithData equal the model, as do existed/added/removed/data return values and the number of constructor calls. The callback of a removal timer that was stopped after it had fired (key requested again) must have no effect. Negative release delays (magnitude is used), reset/restart ops, and a scenario prefix in which another call lands on a key whose delayed removal is pending.",
         "note": "ResetRoutine is not generated here (it re-creates the record and drops a pending removal; property silent). Routines finish promptly (scripted kinds).",
     },
     "C07": {
         "engine": "E2/E1 controlled scheduler with scripted routines", "design_ref": "DESIGN.md §4 C07",
         "technique": "model-based stateful PBT with generated schedule: per-key reference machine advanced in mutex-section grant order, instance goroutines bound to machine tokens at the keyed.exec hook, timer callbacks identified by hook",
-        "text": "Per key and incarnation no two instances execute at once; when a call returns every instance the machine says it removed/superseded/left without context has a cancelled context; instances enter the routine exactly when the machine starts them (start, restart, reset, back-off retry at exactly t+b), a retry that is due but never happens is reported, nothing runs for a removed key, back-off NextBackOff/Reset counts match. The callback of a retry timer that was stopped after it had fired (routine restarted) must have no effect.",
+        "text": "Per key and incarnation no two instances execute at once; when a call returns every instance the machine says it removed/superseded/left without context has a cancelled context; instances enter the routine exactly when the machine starts them (start, restart, reset, back-off retry at exactly t+b), a retry that is due but never happens is reported, nothing runs for a removed key, back-off NextBackOff/Reset counts match. The callback of a retry timer that was stopped after it had fired (routine restarted) must have no effect. Zero back-off intervals; timer callbacks are matched to the machine's timers by firing order; an expired release delay with a live instance of that key is reported (not-cancelled-after-delay).",
         "note": "Overlap between a removed key's old routine and the routine of a re-added key is not asserted (new incarnation). Pending delayed removal across ResetRoutine follows the code.",
     },
     "C08": {
         "engine": _E1, "design_ref": "DESIGN.md §4 C08",
         "technique": "model-based stateful PBT with generated schedule; reference machine (Appendix A.4) advanced in mutex-section grant order; oracles run inside each release function and at synctest quiescence",
-        "text": "Scripted resolver calls (values may repeat, errors incl. context.Canceled, the owner may cancel the root context from outside) (blocked until a generated Finish with value/error, with or without release func), AddRef/Release/SetContext/released() interleaved section by section. Each release function checks on the spot: first invocation, the machine already considers the value gone, the target container no longer holds it, every live reference was last told it is gone. At quiescence every value the machine says is gone has been released exactly once; at the end of the case (all references dropped, context cleared) every value with a release function has been released exactly once.",
+        "text": "Scripted resolver calls (values may repeat, errors incl. context.Canceled, the owner may cancel the root context from outside) (blocked until a generated Finish with value/error, with or without release func), AddRef/Release/SetContext/released() interleaved section by section. Each release function checks on the spot: first invocation, the machine already considers the value gone, the target container no longer holds it, every live reference was last told it is gone. At quiescence every value the machine says is gone has been released exactly once; at the end of the case (all references dropped, context cleared) every value with a release function has been released exactly once. TestC08Free counts release calls per value under real parallelism (context replaced continuously). At the end of every controlled case, with everything released and keep-unreferenced off, every value must already be released before the context is cleared (value-pinned-without-references). Resolver outcomes include the zero value of T.",
         "note": "released() is not called re-entrantly from inside a reference callback (TryLock failure path only under the race programs).",
     },
     "C09": {
@@ -108,13 +108,13 @@ META = {
     "C10": {
         "engine": _E1, "design_ref": "DESIGN.md §4 C10",
         "technique": "model-based stateful PBT with generated schedule over Wait/Resolve/ResolveWithReleased/Access consumers with scripted callbacks",
-        "text": "Consumers run as goroutines with their own contexts; Access callbacks block until a generated FinishAccessCb. Checked: returned values were delivered to the consumer's reference and are not released while held unless invalidated; released callbacks fire exactly once iff the machine invalidated after delivery; Access callbacks get delivered values, their context is cancelled by the next quiescence once the machine invalidates the value, Access re-invokes after invalidation and returns a callback result only if no event reached its reference between its look and its check; errors come from the resolver or the caller's cancellation; nobody stays blocked at quiescence when the machine says they can proceed.",
+        "text": "Consumers run as goroutines with their own contexts; Access callbacks block until a generated FinishAccessCb. Checked: returned values were delivered to the consumer's reference and are not released while held unless invalidated; released callbacks fire exactly once iff the machine invalidated after delivery; Access callbacks get delivered values, their context is cancelled by the next quiescence once the machine invalidates the value, Access re-invokes after invalidation and returns a callback result only if no event reached its reference between its look and its check; errors come from the resolver or the caller's cancellation; nobody stays blocked at quiescence when the machine says they can proceed. A caller cancellation that happens while the Access callback runs must be returned as context.Canceled; resolver outcomes include the zero value of T.",
         "note": "The 'between look and check' test uses the event count of the consumer's reference sampled at the grants of Access's private Broadcast sections.",
     },
     "C12": {
         "engine": "E1 controlled CAS interleaving + E3 real parallelism; porcupine as linearizability oracle", "design_ref": "DESIGN.md §4 C12",
         "technique": "generated concurrent histories (controller parks every goroutine between its top load and its compare-and-swap; plus free-running goroutines with random yields) checked for linearizability against a sequential stack/deque model with porcupine, plus element conservation after draining",
-        "text": "CAS failures are forced by the schedule, so retry paths are exercised deterministically and shrunk; real-parallel programs cover the un-hooked interleavings. Every history is checked by porcupine (Pop returns zero exactly when the model stack is empty; LinkedList against a deque incl. PushFront/Peek/PeekTail/IsEmpty/Reset) and for lost / duplicated / invented elements. A retry loop that never terminates is reported as livelock.",
+        "text": "CAS failures are forced by the schedule, so retry paths are exercised deterministically and shrunk; real-parallel programs cover the un-hooked interleavings. Every history is checked by porcupine (Pop returns zero exactly when the model stack is empty; LinkedList against a deque incl. PushFront/Peek/PeekTail/IsEmpty/Reset) and for lost / duplicated / invented elements. A retry loop that never terminates is reported as livelock. TestC12Burst: burst pushers and a single popper with real parallelism: when Pop returns the zero value every value whose Push had returned before must have been popped.",
         "note": "porcupine time-boxed at 5 s per history (timeouts counted, never reported as violations); histories <= 8 goroutines x 30 ops.",
     },
     "C13": {
